@@ -39,6 +39,7 @@ class World:
         self.connects = 0
         self.refuse = False
         self.log = []
+        self.drain_once = {"I": None, "A": None}     # one-shot exception for the next drain() of that side
         self.writer_hook = None          # callable(side, writer): lets a check add fault points to a new writer
         self.last_delivered = {"I": None, "A": None}
 
@@ -53,6 +54,10 @@ class World:
         w = MemWriter(self.tap[side], sink, f"{side}.writer#{link.gen}")
 
         async def drain_hook():
+            once = self.drain_once.get(side)
+            if once is not None:            # the connection dies exactly under this drain()
+                self.drain_once[side] = None
+                raise once
             f = link.drain_fault[side]
             if f is not None and not link.up:
                 raise f
